@@ -128,6 +128,7 @@ class printcore():
         self.queueindex = 0
         self.lineno = 0
         self.resendfrom = -1
+        self.resend_lock = threading.Lock()
         self.paused = False
         self.sentlines = {}
         self.log = deque(maxlen = 10000)
@@ -360,7 +361,8 @@ class printcore():
                 while len(linewords) != 0:
                     try:
                         toresend = int(linewords.pop(0))
-                        self.resendfrom = toresend
+                        with self.resend_lock:
+                            self.resendfrom = toresend
                         break
                     except:
                         pass
@@ -622,11 +624,17 @@ class printcore():
         if not (self.printing and self.printer and self.online):
             self.clear = True
             return
-        if self.resendfrom < self.lineno and self.resendfrom > -1:
-            self._send(self.sentlines[self.resendfrom], self.resendfrom, False)
-            self.resendfrom += 1
+        # Advance the resend cursor before sending: a resend request
+        # that arrives while the line is written must not be overwritten
+        with self.resend_lock:
+            resend = self.resendfrom
+            if resend < self.lineno and resend > -1:
+                self.resendfrom = resend + 1
+            else:
+                self.resendfrom = resend = -1
+        if resend > -1:
+            self._send(self.sentlines[resend], resend, False)
             return
-        self.resendfrom = -1
         if not self.priqueue.empty():
             self._send(self.priqueue.get_nowait())
             self.priqueue.task_done()
